@@ -252,6 +252,12 @@ def rule_window(ctx, m):
         if cn["k"] != "BinaryOperator" or cn["op"] != "<" or bn["k"] != "BinaryOperator" or bn["op"] != "+":
             continue
         ln = f.nodes[f.strip(cn["ch"][0])]
+        if ln["k"] == "DeclRefExpr":
+            # a local that names the remaining length
+            for ds in astq.nodes_of(f, "DeclStmt"):
+                for d in f.nodes[ds]["decls"]:
+                    if d.get("d") == ln.get("d") and d.get("init", -1) >= 0:
+                        ln = f.nodes[f.strip(d["init"])]
         if ln["k"] != "BinaryOperator" or ln["op"] != "-":
             continue
         E, X, K = f.text(ln["ch"][0]), f.text(ln["ch"][1]), f.text(cn["ch"][1])
